@@ -89,6 +89,19 @@ void cgreen_mocks_are(CgreenMockMode mock_mode) {
     cgreen_mocks_are_ = mock_mode;
 }
 
+#ifdef CGREEN_VERIF
+/* read-only walk over the pending expectations, oldest first */
+void cgreen_verif_walk_expectations(void (*visit)(const char *function, int line, int time_to_live,
+                                                  int number_times_called, int times_triggered)) {
+    int i;
+    for (i = 0; i < cgreen_vector_size(global_expectation_queue); i++) {
+        RecordedExpectation *expectation = (RecordedExpectation *)cgreen_vector_get(global_expectation_queue, i);
+        (*visit)(expectation->function, expectation->test_line, expectation->time_to_live,
+                 expectation->number_times_called, expectation->times_triggered);
+    }
+}
+#endif
+
 
 static int number_of_parameters_in(const char *parameter_list) {
     int count = 1;
